@@ -279,10 +279,42 @@ def replay_construct(inp, ob):
     return False, "no oracle"
 
 
+def replay_from_tracks(inp, ob):
+    from funtracks.data_model import SolutionTracks, Tracks
+    from funtracks.user_actions import UserDeleteEdge
+
+    N = inp["N"]
+    g = nx.DiGraph()
+    for i in range(N):
+        if inp["alive"][i]:
+            d = {T: inp["t"][i], POS: [float(i), 0.0]}
+            if inp["missing"] != i + 1:
+                d[TID], d[LID] = inp["tid"][i], inp["lid"][i]
+            g.add_node(i + 1, **d)
+    for i in range(N):
+        for j in range(N):
+            if inp["adj"][i][j]:
+                g.add_edge(i + 1, j + 1)
+    st = SolutionTracks.from_tracks(Tracks(g, ndim=3, time_attr=T, tracklet_attr=TID, lineage_attr=LID))
+    g1 = st.graph
+    if ob.endswith("_and_edit"):
+        a = inp["args"]
+        UserDeleteEdge(st, (a["u"], a["v"]))
+    detail = f"edges={sorted(g1.edges())} ids={ {n: (d.get(TID), d.get(LID)) for n, d in g1.nodes(data=True)} } " \
+             f"missing={inp['missing']} args={inp.get('args')}"
+    if ob.startswith("C04"):
+        return (not partition_ok(g1, TID, tracklet_components(g1))), detail
+    return (not partition_ok(g1, LID, list(nx.weakly_connected_components(g1)))), detail
+
+
 def replay(failure):
     """returns (reproduced: bool, detail: str)"""
     inp = failure["inputs"]
     ob = failure["obligation"]
+    if inp.get("action") == "from_tracks":
+        with warnings.catch_warnings():
+            warnings.simplefilter("ignore")
+            return replay_from_tracks(inp, ob)
     if inp.get("action") == "query":
         with warnings.catch_warnings():
             warnings.simplefilter("ignore")
